@@ -712,16 +712,253 @@ def action_fields_ok(sig, obj, kind, addr, spec):
     return z3.And(*cs)
 
 
+# ---------------------------------------------------------------------------- load_action_list (unbounded + bounded)
+# The list is kept as a RECORD LIST (pyvc SymSeq with .rec: one z3 array per action field).  Its flat index is
+# host*K + j with K = 4 + #exploits + #escalations - a product of two symbols.  The product is kept out of the solver
+# (DESIGN 2.7 rule 3): positions are written with the ghost function lal_base (lal_base(0) = 0, lal_base(h+1) =
+# lal_base(h) + K) and lal_idx(h, j) = lal_base(h) + j; the two facts about lal_base the proof uses - blocks do not
+# overlap (monotone) and lal_base(h) = h*K - are proved by induction as separate closed lemma obligations.
+
+from pyvc.values import intern_name
+
+LAL_COLS = (("cls", "int"), ("name", "name"), ("tsub", "int"), ("thid", "int"), ("cost", "real"), ("prob", "real"),
+            ("req_access", "int"), ("access", "int"), ("service", "name"), ("os", "name"), ("process", "name"))
+LAL_ABSENT = -77            # column value of a field the action object does not have
+lal_base = z3.Function("lal_base", I_, I_)
+lal_idx = z3.Function("lal_idx", I_, I_, I_)
+LAL_LOCALS = ("address", "e_name", "e_def", "exploit", "pe_name", "pe_def", "privesc")
+
+
+def lal_K(sig):
+    return ival(sig.nE) + ival(sig.nP) + 4
+
+
+def lal_axioms(sig):
+    """definitional axioms of the ghost position functions + the two lemmas proved by induction (see lal_lemmas)"""
+    K = lal_K(sig)
+    h, j, a, b = z3.Int("lal_h"), z3.Int("lal_j"), z3.Int("lal_a"), z3.Int("lal_b")
+    return [lal_base(0) == 0,
+            z3.ForAll([a, b], z3.Implies(z3.And(0 <= a, a < b), lal_base(a) + K <= lal_base(b)),
+                      patterns=[z3.MultiPattern(lal_base(a), lal_base(b))]),
+            z3.ForAll([h, j], lal_idx(h, j) == lal_base(h) + j, patterns=[lal_idx(h, j)])]
+
+
+def lal_lemmas():
+    """closed induction obligations (fresh function g, arbitrary K >= 0): they do not depend on any path hypothesis"""
+    g = z3.Function("lal_g", I_, I_)
+    K, b, a0 = z3.Int("lal_lK"), z3.Int("lal_lb"), z3.Int("lal_la0")
+    a = z3.Int("lal_la")
+    rec = g(b + 1) == g(b) + K
+    ih = z3.ForAll([a], z3.Implies(z3.And(0 <= a, a < b), g(a) + K <= g(b)))
+    return [
+        ("lemma.C11.blocks-do-not-overlap.induction-base", z3.Implies(z3.And(0 <= a0, a0 < 0), g(a0) + K <= g(0))),
+        ("lemma.C11.blocks-do-not-overlap.induction-step",
+         z3.Implies(z3.And(b >= 0, K >= 0, rec, ih, 0 <= a0, a0 < b + 1), g(a0) + K <= g(b + 1))),
+        ("lemma.C11.block-start-is-host-times-K.induction-base", z3.Implies(g(0) == 0, g(0) == 0 * K)),
+        ("lemma.C11.block-start-is-host-times-K.induction-step",
+         z3.Implies(z3.And(b >= 0, rec, g(b) == b * K), g(b + 1) == (b + 1) * K)),
+    ]
+
+
+def lal_abstract(x):
+    """action object -> one z3 term per column"""
+    if not isinstance(x, Obj):
+        raise EngineLimit(f"non-object appended to the action list: {x!r}")
+    f = x.fields
+    tg = f.get("target")
+    if not (isinstance(tg, tuple) and len(tg) == 2):
+        raise EngineLimit("action target is not an address pair")
+    out = {"cls": z3.IntVal(intern_name(x.cls.name)), "tsub": ival(tg[0]), "thid": ival(tg[1])}
+    for c, kind in LAL_COLS:
+        if c in out:
+            continue
+        if c not in f:
+            out[c] = z3.RealVal(LAL_ABSENT) if kind == "real" else z3.IntVal(LAL_ABSENT)
+        elif kind == "real":
+            out[c] = rval(f[c])
+        elif kind == "name":
+            out[c] = nameval(f[c])
+        else:
+            out[c] = ival(f[c])
+    return out
+
+
+def lal_new_list(I, tag):
+    srt = {"int": I_, "name": I_, "real": R_}
+    cols = {c: I.ctx.fresh(f"lal_{tag}_{c}", z3.ArraySort(I_, srt[k])) for c, k in LAL_COLS}
+    lst = SymSeq(I.ctx.fresh(f"lal_{tag}_len", I_), None, "action_list", True, mutable=True)
+    lst.rec = {"cols": cols, "abstract": lal_abstract}
+    acls = I.repo.cls(ACT + "Action")
+
+    def elem(i, lst=lst):
+        c = lst.rec["cols"]
+        ii = ival(i)
+        return Obj(acls, {"target": (mk(z3.Select(c["tsub"], ii), "int"), mk(z3.Select(c["thid"], ii), "int")),
+                          "cost": mk(z3.Select(c["cost"], ii), "real"), "prob": mk(z3.Select(c["prob"], ii), "real"),
+                          "req_access": mk(z3.Select(c["req_access"], ii), "int"),
+                          "name": mk(z3.Select(c["name"], ii), "name")}, fresh=False, label="flat-action")
+    lst.elem = elem
+    return lst
+
+
+def lal_spec(sig, col, h, j, addr=None):
+    """documented content of column `col` of the j-th action of host number h (None: not specified)"""
+    nE = ival(sig.nE)
+    e, p = j - 4, j - 4 - nE
+    A = lambda kind: z3.RealVal(LAL_ABSENT) if kind == "real" else z3.IntVal(LAL_ABSENT)
+    cid = lambda n: z3.IntVal(intern_name(n))
+    ts, th = (sig.asub(h), sig.ahid(h)) if addr is None else (ival(addr[0]), ival(addr[1]))
+    ite4 = lambda a, b, c, d, ex, pr: z3.If(j == 0, a, z3.If(j == 1, b, z3.If(j == 2, c, z3.If(j == 3, d, z3.If(j < 4 + nE, ex, pr)))))
+    if col == "cls":
+        return ite4(cid("ServiceScan"), cid("OSScan"), cid("SubnetScan"), cid("ProcessScan"), cid("Exploit"),
+                    cid("PrivilegeEscalation"))
+    if col == "name":
+        return None if False else ("exploits-only", z3.If(j < 4 + nE, e + 500000, p + 500000))
+    if col == "tsub":
+        return ts
+    if col == "thid":
+        return th
+    if col == "cost":
+        return ite4(sig.cost_srv, sig.cost_os, sig.cost_sub, sig.cost_proc, sig.e_cost(e), sig.p_cost(p))
+    if col == "prob":
+        one = z3.RealVal(1)
+        return ite4(one, one, one, one, sig.e_prob(e), sig.p_prob(p))
+    if col == "req_access":
+        return z3.IntVal(1)
+    if col == "access":
+        a = A("int")
+        return ite4(a, a, a, a, sig.e_access(e), sig.p_access(p))
+    if col == "service":
+        a = A("name")
+        return ite4(a, a, a, a, sig.e_srv(e), a)
+    if col == "os":
+        a = A("name")
+        return ite4(a, a, a, a, sig.e_os(e), sig.p_os(p))
+    if col == "process":
+        a = A("name")
+        return ite4(a, a, a, a, a, sig.p_proc(p))
+    raise KeyError(col)
+
+
+def lal_cell_ok(sig, col, arr, pos, h, j, addr=None):
+    want = lal_spec(sig, col, h, j, addr)
+    got = z3.Select(arr, pos)
+    if isinstance(want, tuple):       # the name column: specified for exploits / escalations only (the definition's key)
+        return z3.Implies(j >= 4, got == want[1])
+    return got == want
+
+
+def lal_rows(sig, lst, k, label):
+    """rows of hosts 0..k-1 hold the documented actions"""
+    K = lal_K(sig)
+    h, j = sig.qvar("lh"), sig.qvar("lj")
+    out = []
+    for col, _kind in LAL_COLS:
+        out.append((f"{label}.{col}", z3.ForAll([h, j], z3.Implies(
+            z3.And(0 <= h, h < k, 0 <= j, j < K),
+            lal_cell_ok(sig, col, lst.rec["cols"][col], lal_idx(h, j), h, j)), patterns=[lal_idx(h, j)])))
+    return out
+
+
+@loop_contract
+class LoadActionListHosts(LoopContract):
+    qualname = ACT + "load_action_list"
+    ordinal = 0
+    tags = ("C11", "C05", "C12", "C10", "C19", "C07", "C01")
+
+    def snapshot(self, I, fr, seq):
+        return {}
+
+    def havoc(self, I, fr, entry, seq):
+        fr.locals["action_list"] = lal_new_list(I, "hosts")
+        for v in LAL_LOCALS:
+            fr.locals.pop(v, None)
+
+    def inv(self, I, fr, entry, seq, k):
+        sig = I.ext_state["sig"]
+        lst = fr.locals["action_list"]
+        if isinstance(lst, PyList):
+            zero = z3.is_int_value(z3.simplify(k)) and z3.simplify(k).as_long() == 0
+            return [("list-holds-the-first-hosts-actions", z3.BoolVal(bool(zero and not lst.items)))]
+        if not (isinstance(lst, SymSeq) and getattr(lst, "rec", None)):
+            return [("list-holds-the-first-hosts-actions", z3.BoolVal(False))]
+        # instance of the recursive definition of lal_base at k (k >= 0 on every use)
+        I.ctx.assume(z3.Implies(k >= 0, lal_base(k + 1) == lal_base(k) + lal_K(sig)))
+        return [("length", ival(lst.n) == lal_base(k))] + lal_rows(sig, lst, k, "rows")
+
+
+class _LalInner(LoopContract):
+    tags = ("C11", "C05", "C12", "C10", "C19", "C07", "C01")
+    offset = None
+
+    def snapshot(self, I, fr, seq):
+        lst = fr.locals["action_list"]
+        if not (isinstance(lst, SymSeq) and getattr(lst, "rec", None)):
+            raise EngineLimit("inner loop of load_action_list entered without the record list")
+        return {"lst": lst, "n": lst.n, "cols": dict(lst.rec["cols"]), "address": fr.locals["address"]}
+
+    def havoc(self, I, fr, entry, seq):
+        new = lal_new_list(I, "in%d" % self.ordinal)
+        lst = entry["lst"]
+        lst.n, lst.rec["cols"] = new.n, new.rec["cols"]
+        for v in LAL_LOCALS[1:]:
+            fr.locals.pop(v, None)
+
+    def inv(self, I, fr, entry, seq, k):
+        sig = I.ext_state["sig"]
+        lst = fr.locals["action_list"]
+        if lst is not entry["lst"]:
+            return [("appends-to-the-same-list", z3.BoolVal(False))]
+        n0 = ival(entry["n"])
+        i = sig.qvar("li")
+        out = [("length", ival(lst.n) == n0 + k)]
+        # virtual position of definition number q inside a host's block: 4 + q (exploits), 4 + nE + q (escalations)
+        off = z3.IntVal(4) if self.ordinal == 1 else 4 + ival(sig.nE)
+        for col, _kind in LAL_COLS:
+            arr, arr0 = lst.rec["cols"][col], entry["cols"][col]
+            out.append((f"earlier-untouched.{col}", z3.ForAll([i], z3.Implies(z3.And(0 <= i, i < n0),
+                                                                             z3.Select(arr, i) == z3.Select(arr0, i)))))
+            out.append((f"appended.{col}", z3.ForAll([i], z3.Implies(
+                z3.And(n0 <= i, i < n0 + k), lal_cell_ok(sig, col, arr, i, None, i - n0 + off, entry["address"])))))
+        return out
+
+
+@loop_contract
+class LoadActionListExploits(_LalInner):
+    qualname = ACT + "load_action_list"
+    ordinal = 1
+
+
+@loop_contract
+class LoadActionListPrivescs(_LalInner):
+    qualname = ACT + "load_action_list"
+    ordinal = 2
+
+
 @contract
 class LoadActionListBounded(Contract):
     qualname = ACT + "load_action_list"
-    unbounded = False
+    unbounded = True            # symbolic scenario of any size: record-list loop invariants (LoadActionListHosts / ...)
+    prefer_ematch = True        # the list-building invariants close by pure E-matching (patterns on lal_idx / Select)
     tags = {"": ("C11", "C05", "C12", "C10", "C19", "C07", "C01")}
 
     def variants(self):
         return [f"{e}/{p}" for e in range(len(E_SHAPES)) for p in range(len(P_SHAPES))]
 
+    def unbounded_variants(self):
+        return ["symbolic"]
+
     def setup(self, I, variant):
+        if variant == "symbolic":
+            sig = sig_setup(I)
+            for ax in lal_axioms(sig):
+                I.ctx.assume(ax)
+            sc = sig.scenario_obj(I)
+            S = Scope(sig=sig)
+            S.extra["cfg"] = None
+            S.a = {"scenario": sc}
+            S.call_args = ([sc], {})
+            return S
         cfg = bounded_cfg(I, variant)
         sig = sig_setup(I)
         sc = sig.scenario_obj(I)
@@ -736,10 +973,26 @@ class LoadActionListBounded(Contract):
         S.sig = I.ext_state["sig"]
         return S
 
+    def ensures_symbolic(self, I, S):
+        sig = S.sig
+        lst = S.result
+        ok = isinstance(lst, SymSeq) and getattr(lst, "rec", None) is not None
+        out = [("C11.list-of-actions", z3.BoolVal(bool(ok)))]
+        if not ok:
+            return out
+        N, K = ival(sig.N), lal_K(sig)
+        # size: n = lal_base(N) (exit invariant) and lal_base(N) = N*K (lemma, proved by induction below)
+        out.append(("C11.flat-size", z3.Implies(lal_base(N) == N * K, ival(lst.n) == N * K)))
+        out += lal_rows(sig, lst, N, "C11.flat-enumeration")
+        out += lal_lemmas()
+        return out
+
     def ensures(self, I, S):
         if getattr(S, "callsite", False):
             return []
         sig, cfg = S.sig, S.extra["cfg"]
+        if cfg is None:
+            return self.ensures_symbolic(I, S)
         lst = S.result
         ok = isinstance(lst, PyList) and all(isinstance(x, Obj) for x in lst.items)
         out = [("C11.list-of-actions", z3.BoolVal(ok))]
@@ -774,8 +1027,8 @@ class LoadActionListBounded(Contract):
 
 
 def _lal_havoc(self, I, S):
-    """call-site model of load_action_list in unbounded mode (ASSUMED: its loops are only checked bounded):
-    a list of N*(4+nE+nP) abstract actions"""
+    """call-site model of load_action_list in unbounded mode: a list of N*(4+nE+nP) abstract actions (the length is
+    the proved clause C11.flat-size; users of the flat space only need targets and identities of the elements)"""
     sig = S.sig
     n = ival(sig.N) * (ival(sig.nE) + ival(sig.nP) + 4)
     acls = I.repo.cls(ACT + "Action")
